@@ -55,6 +55,51 @@ MUTANTS = [
      "                else:\n                    return r",
      "                if h.prev and len(r) < 2:\n                    pos = h.prev\n"
      "                else:\n                    return r"),
+    ('C05', 'abort-no-truncate', FS,
+     "        if self._nextpos:\n            self._file.truncate(self._pos)\n"
+     "            self._files.flush()",
+     "        if self._nextpos:\n            self._files.flush()"),
+    ('C05', 'vote-error-no-truncate', FS,
+     "                self._file.truncate(self._pos)\n"
+     "                self._files.flush()\n                raise",
+     "                self._files.flush()\n                raise"),
+    ('C05', 'abort-keeps-commit-lock', BS,
+     "            finally:\n                self._commit_lock_release()",
+     "            finally:\n                pass"),
+    ('C05', 'abort-keeps-transaction', BS,
+     "                self._clear_temp()\n                self._transaction = None\n"
+     "            finally:\n                self._commit_lock_release()",
+     "                self._clear_temp()\n"
+     "            finally:\n                self._commit_lock_release()"),
+    ('C05', 'mapping-abort-keeps-lock', MS,
+     "        self._transaction = None\n        self._commit_lock.release()\n\n"
+     "    # ZODB.interfaces.IStorage\n    def tpc_begin",
+     "        self._transaction = None\n\n"
+     "    # ZODB.interfaces.IStorage\n    def tpc_begin"),
+    ('C05', 'quota-checked-never', FS,
+     "            # Check quota\n            if self._quota is not None and here > self._quota:\n"
+     "                raise FileStorageQuotaError(\n"
+     "                    \"The storage quota has been exceeded.\")\n\n"
+     "    def deleteObject",
+     "\n    def deleteObject"),
+    # (skipping findReachableFromFuture altogether only makes packs *fail*
+    # with PackError -- no property demands that a pack succeeds)
+    ('C07', 'copier-prev-zero', PK,
+     "        old = self._index.get(oid, 0)\n        # Calculate the pos the record will have in the storage.",
+     "        old = 0\n        # Calculate the pos the record will have in the storage."),
+    ('C07', 'pack-boundary-ge', PK,
+     "            if th.tid > self.packtime:\n                break\n"
+     "            self.checkTxn(th, pos)\n            if th.status != \"p\":",
+     "            if th.tid >= self.packtime:\n                break\n"
+     "            self.checkTxn(th, pos)\n            if th.status != \"p\":"),
+    ('C07', 'mapping-pack-drops-kept', MS,
+     "                tids_to_remove.pop()    # Keep the last, if any\n",
+     "                pass\n"),
+    ('C07', 'packed-backpointer-not-resolved', PK,
+     "                data = self.fetchDataViaBackpointer(h.oid, h.back)\n\n"
+     "            self.writePackedDataRecord(h, data, new_tpos)",
+     "                data = None\n\n"
+     "            self.writePackedDataRecord(h, data, new_tpos)"),
 ]
 
 
